@@ -233,6 +233,8 @@ class ProxyConnection:
         return self._gate("commit", self._conn.rollback)
 
     def close(self):
+        if self._m.on_close is not None:
+            self._m.on_close(self)
         return self._conn.close()
 
     def __getattr__(self, name):
@@ -242,9 +244,10 @@ class ProxyConnection:
 class ProxySqlite:
     """Stands in for the name `sqlite3` inside pymoca.parser."""
 
-    def __init__(self, hook, timeout=None):
+    def __init__(self, hook, timeout=None, on_close=None):
         self.hook = hook
         self.timeout = timeout
+        self.on_close = on_close
         self.connect_kwargs = []
 
     def connect(self, *args, **kw):
@@ -287,6 +290,7 @@ class Env:
 def make_state(folder, state, texts):
     """Prepare the cache folder: fresh / existing (a database created by an earlier parse of another text) /
     cached (a database that already holds the texts the calls will parse: concurrent hits) /
+    extracol (a `models` table with an additional NOT NULL column) /
     wronglayout (both tables present with alien columns)."""
     folder = Path(folder)
     if state == "existing":
@@ -296,6 +300,14 @@ def make_state(folder, state, texts):
         conn = sqlite3.connect(folder / DB)
         for t in ("models", "metadata"):
             conn.execute("CREATE TABLE %s (wrong_key TEXT, wrong_value TEXT, PRIMARY KEY (wrong_key))" % t)
+        conn.commit()
+        conn.close()
+    elif state == "extracol":
+        # a `models` table on which the lookup works but an insert does not (extra NOT NULL column): harmless as
+        # long as every call checks the layout before it uses the table
+        conn = sqlite3.connect(folder / DB)
+        conn.execute("CREATE TABLE models (txt_hash TEXT, pymoca_version TEXT, data BLOB, last_hit TIMESTAMP INTEGER, "
+                     "extra TEXT NOT NULL, PRIMARY KEY (txt_hash, pymoca_version))")
         conn.commit()
         conn.close()
     elif state == "cached":
@@ -390,6 +402,13 @@ class Scheduler:
         self.report = {}       # tid -> ("ok", dt) | ("locked", dt, exc)
         self.finished = {}     # tid -> result
         self.tids = {}
+        self.closed = set()    # tids whose connection was closed since the main thread last looked
+
+    def on_close(self, pconn):
+        tid = self.tids.get(threading.get_ident())
+        if tid is not None:
+            with self.cv:
+                self.closed.add(tid)
 
     # worker side
     def hook(self, pconn, kind, fn):
@@ -440,6 +459,7 @@ class Scheduler:
     def worker(self, tid, fn):
         self.tids[threading.get_ident()] = tid
         try:
+            self.hook(None, "start", lambda: None)     # entering parse() is a scheduled event too
             res = ("ok", fn())
         except BaseException as e:  # noqa
             res = ("exc", "%s: %s" % (type(e).__name__, e))
@@ -500,7 +520,7 @@ def scheduled_run(ctx, case, drv, pool):
     folder = tempfile.mkdtemp(prefix="c02-sched-", dir=scratch_base(ctx))
     make_state(folder, case["state"], pool["texts"])
     sched = Scheduler(n)
-    proxy = ProxySqlite(sched.hook, timeout=T_BUSY)
+    proxy = ProxySqlite(sched.hook, timeout=T_BUSY, on_close=sched.on_close)
     rng = random.Random(case["seed"])
     forced = case.get("choices")
     choices = []
@@ -522,6 +542,9 @@ def scheduled_run(ctx, case, drv, pool):
             with sched.cv:
                 pend = {t: k for t, k in sched.pending.items()}
                 live = [t for t in live if t not in sched.finished]
+                for t in sched.closed:
+                    model[t] = {"lock": "none", "inTxn": False}   # a closed connection holds nothing
+                sched.closed.clear()
             if not live:
                 break
             if stop is not None:
@@ -536,12 +559,21 @@ def scheduled_run(ctx, case, drv, pool):
                 continue
             preds = {}
             for t, k in sorted(pend.items()):
+                if k == "start":
+                    preds[t] = {"outcome": "ok", "lock": model[t]["lock"], "inTxn": model[t]["inTxn"]}
+                    continue
                 ans = drv.ask({"op": "lock.call", "conns": model, "i": t, "stmt": k}) if drv is not None else None
                 preds[t] = ans
             if sum(1 for m in model if m["inTxn"]) >= 2:
                 overlap = True
             enabled = [t for t in sorted(pend) if preds[t] is None or preds[t]["outcome"] != "waits"]
-            waiting = [t for t in sorted(pend) if t not in enabled]
+            stagger = case.get("stagger")
+            if stagger:
+                # thread t enters parse() only after `stagger[t]` scheduling steps (a call that arrives later)
+                early = [t for t in enabled if not (pend[t] == "start" and len(choices) < stagger[t])]
+                if early:
+                    enabled = early
+            waiting = [t for t in sorted(pend) if t not in enabled and pend[t] != "start"]
             if forced is not None:
                 if len(choices) >= len(forced):
                     pick = (enabled or waiting)[0]
@@ -553,6 +585,8 @@ def scheduled_run(ctx, case, drv, pool):
                 ctx.disagreement("lock.deadlock", case, "every pending statement waits in the model", {"pending": pend, "locks": [m["lock"] for m in model]})
                 stop = "deadlock"
                 continue
+            elif str(case.get("policy", "")).startswith("favor:") and int(case["policy"][6:]) in enabled:
+                pick = int(case["policy"][6:])     # this connection runs whenever it can
             elif case.get("policy") == "roundrobin":
                 # strict alternation between the connections that can move: both read before either writes
                 last = choices[-1] if choices else -1
@@ -923,6 +957,13 @@ def _run_ties(ctx, drv, quick, rng, pool, workers):
                       "policy": "roundrobin", "seed": 0, "pool": pool["texts"]})
     fixed.append({"kind": "schedule", "state": "fresh", "texts": [0, 1, 0], "preinit": False, "update": False,
                   "policy": "roundrobin", "seed": 0, "pool": pool["texts"]})
+    for state, late in [("fresh", 3), ("fresh", 9), ("wronglayout", 4), ("wronglayout", 12), ("existing", 3)]:
+        fixed.append({"kind": "schedule", "state": state, "texts": [0, 0], "preinit": False, "update": False,
+                      "policy": "random", "stagger": [0, late], "seed": late, "pool": pool["texts"]})
+    # a second call that arrives after the first one's k-th statement and then runs whenever it can
+    for state, late in [("extracol", 2), ("extracol", 3), ("extracol", 5), ("wronglayout", 2), ("fresh", 2), ("fresh", 4)]:
+        fixed.append({"kind": "schedule", "state": state, "texts": [0, 1], "preinit": False, "update": False,
+                      "policy": "favor:1", "stagger": [0, late], "seed": late, "pool": pool["texts"]})
     for k in range(len(fixed) + nsched):
         if ctx.time_left() < (10 if quick else 120):
             ctx.notes.append("scheduled runs stopped by the time budget after %d" % k)
@@ -932,9 +973,10 @@ def _run_ties(ctx, drv, quick, rng, pool, workers):
         else:
             n = rng.choice([2, 2, 3])
             same = rng.random() < 0.5
-            case = {"kind": "schedule", "state": rng.choice(["fresh", "fresh", "existing", "wronglayout", "cached"]),
+            case = {"kind": "schedule", "state": rng.choice(["fresh", "fresh", "existing", "wronglayout", "cached", "extracol"]),
                     "texts": [0] * n if same else [rng.randrange(3) for _ in range(n)],
                     "preinit": False, "update": False, "policy": rng.choice(["random", "random", "roundrobin"]),
+                    "stagger": [0] + [rng.choice([0, 0, 2, 5, 9, 14, 20]) for _ in range(n - 1)],
                     "seed": rng.randrange(1 << 30), "pool": pool["texts"]}
             if case["state"] in ("existing", "cached") and rng.random() < 0.4:
                 case["preinit"] = True
@@ -947,8 +989,9 @@ def _run_ties(ctx, drv, quick, rng, pool, workers):
 
     mark("scheduled")
     # (E') free-running threads of this process
-    tplan = ([("fresh", 4)] * 4 + [("fresh", 8)] * 3 + [("wronglayout", 8)] * 2 + [("cached", 8)] * 3 + [("existing", 8)] * 2) if quick else \
-        ([("fresh", 4)] * 20 + [("fresh", 8)] * 40 + [("wronglayout", 8)] * 30 + [("cached", 8)] * 30 + [("existing", 8)] * 30)
+    tplan = ([("fresh", 4)] * 4 + [("fresh", 8)] * 3 + [("wronglayout", 8)] * 2 + [("cached", 8)] * 3 + [("existing", 8)] * 2
+             + [("extracol", 8)] * 2) if quick else \
+        ([("fresh", 4)] * 20 + [("fresh", 8)] * 40 + [("wronglayout", 8)] * 30 + [("cached", 8)] * 30 + [("existing", 8)] * 30 + [("extracol", 8)] * 30)
     for r, (state, n) in enumerate(tplan):
         if ctx.time_left() < (8 if quick else 100):
             ctx.notes.append("thread stress stopped by the time budget after %d rounds" % r)
@@ -1024,9 +1067,12 @@ def run_case(ctx, c, drv, workers=None):
 
 
 def replay(ctx, payload):
+    c = payload.get("case") or next((d["case"] for d in payload.get("details", []) if d.get("case")), None)
+    if c is None:
+        raise HarnessError("replay file without a case (a broken tie of the Lean build/audit has no input)")
     with a01.Quiet():
         try:
-            run_case(ctx, payload["case"], ctx.driver("drv_c02"))
+            run_case(ctx, c, ctx.driver("drv_c02"))
         finally:
             scratch_cleanup(ctx)
 
@@ -1047,8 +1093,9 @@ def search(ctx):
                 stress_round(ctx, case, pool, workers)
                 ctx.count("search-stress")
                 if not ctx.violations:
-                    thread_round(ctx, dict(case, kind="threads", n=8, texts=case["texts"][:8],
-                                           second=case["second"][:8] if case["second"] else None), pool)
+                    k8 = min(8, len(case["texts"]))
+                    thread_round(ctx, dict(case, kind="threads", n=k8, texts=case["texts"][:k8],
+                                           second=case["second"][:k8] if case["second"] else None), pool)
                     ctx.count("search-threads")
                 if not ctx.violations and r % 2 == 0:
                     k = ctx.rng.choice([2, 3])
